@@ -331,6 +331,13 @@ def run_extra(cx):
                     if match(f'(agg *Option::Some (0 (itervar {PTS})))', v) is not None:
                         g = [a for a, p in cx.guards(b, bi) if p and a[0] == 'lt']
                         ok = any(match(f'(lt (anyphi (loop)) (call *points::dist (itervar {PTS}) (call *projected_point {CHORD} (itervar {PTS}))))', a) is not None for a in g)
+        if not ok:
+            # the same arg-max as a fold with a (best distance, Option<point>) accumulator
+            from vpa import comp as CMPF
+            for af in CMPF.argmax_folds(cx, b):
+                if match(PTS, af['src']) is not None and af['init'] == ('const', 0.0) and match(f'(itervar {PTS})', af['item']) is not None and \
+                        match(f'(call *points::dist (itervar {PTS}) (call *projected_point {CHORD} (itervar {PTS})))', af['value']) is not None:
+                    ok = True
         okx, why = T.exhaustive_loops(cx, b)
         cx.ob('EXPR', 'camber_detect_upper_dir:scan', ok and okx,
               'the reference point is the running maximum, over EVERY resampled camber point (the scan is never left early), of the distance to its projection on the chord front-back', where=b.file,
